@@ -96,6 +96,8 @@ def install(reg, src):
         @reg.contract(key, props=list(props), cases=cases or {}, group="jacrow", rank=rank)
         def _(c):
             sp = Spec(c.ip)
+            if c.verifying:
+                c.ip.path.ghost["occ_single"] = True
             kn = known(c) if known else None
             e = c.arg("self", T.obj(cls, exact=True, known=kn))
             vs = varlist(c)
